@@ -32,5 +32,9 @@ def run(rep):
     br.rule_rect(rep, "C14.ragged")
     lr.rule_scanner(rep, "C14.line", "C14.scan")
     lr.rule_token(rep, "C14.token")
+    # which dialect names are unknown is decided by Dialect.for_name against the table; the expectation after a tag line
+    # depends on what the look-ahead skips
+    dr.rule_dialect(rep, "C14.dialect")
+    pr.rule_look(rep, "C14.look")
     # no hidden state: what the property promises for one use must hold for every later use as well
     ms.rule_stateless(rep, "C14")
